@@ -46,7 +46,11 @@ def _enc_event(ev):
         "valid": bool(ev["valid"]),
         "votes": [_vote(v) for v in (ev["votes"] or [])],
         "vars": _norm_vars(ev["vars"]),
-        "printed": [txt(s) for s in ev["printed"]],
+        # error messages (policy 'print') are counted per call, their wording is not compared
+        "printed": [txt(s) for s in ev["printed"] if not runner.ERRLINE.match(s)],
+        "nerrors": int(ev.get("nerrors", 0)),
+        "errcalls": int(ev.get("errcalls", 0)),
+        "errlines": [int(x) for x in ev.get("errlines", [])],
     }
 
 
@@ -70,6 +74,8 @@ def comment_for(cfg):
         parts.append("run-mode: no-run")
     if cfg.get("noDefaultPrint"):
         parts.append("print-mode: no-default")
+    if cfg.get("vm"):
+        parts.append("validation-mode: " + ", ".join((f if b else "no-" + f) for f, b in sorted(cfg["vm"].items())))
     return " ".join(parts) if parts else None
 
 
@@ -89,6 +95,8 @@ def run_case(case, method="collect"):
     events = []
     nexts = case["cfg"]["nexts"]
     dia = case.get("dialect") or {}
+    # the error policy is the configuration's (the scratch default is 'collect, print')
+    scratch.set_policy(", ".join(case["cfg"].get("policy") or ["collect", "print"]))
     p, cap = runner.new_csvpath(delimiter=dia.get("delimiter", ","), quotechar=dia.get("quotechar", '"'))
     raised = ""
     lines = None
@@ -135,9 +143,9 @@ def run_case(case, method="collect"):
             "valid": bool(p.is_valid),
             "match_count": p.match_count,
             "scan_count": p.scan_count,
-            "printed": [txt(s) for s in cap.lines],
+            "printed": [txt(s) for s in cap.lines if not runner.ERRLINE.match(s)], "nerrors": len(p.errors) if p.errors else 0,
             "checkStdout": not raised and not any("\n" in x for x in cap.lines),
-            "stdout": [txt(x) for x in sbuf.getvalue().split("\n")[:-1]] if not raised else [],
+            "stdout": [txt(x) for x in sbuf.getvalue().split("\n")[:-1] if not runner.ERRLINE.match(x)] if not raised else [],
             "checkLines": lines is not None and not raised,
             "lines": [[_cell(c) for c in l] for l in (lines or [])] if not raised else [],
             "headers": [txt(h) for h in (p.headers or [])] if p.scanner is not None else [],
